@@ -164,20 +164,20 @@ package server
 //@ func writeSecondaryIndexes
 //@ property C15
 //@ requires batch != nil && forall i int :: 0 <= i && i < len(secondaryIndexes) ==> secondaryIndexes[i] != nil
-//@ loop 0 modifies ghset(present, batch)
+//@ loop 0 modifies ghset(present, batch), ghset(deleted, batch)
 //@ loop 0 invariant forall k string :: ghset(present, batch, k) <==> (old(ghset(present, batch, k)) || exists i int :: 0 <= i && i <= rangeindex && k == idxKey(primaryKey, secondaryIndexes[i].IndexName, secondaryIndexes[i].SecondaryKey))
 //@ ensures result == nil ==> forall k string :: ghset(present, batch, k) <==> (old(ghset(present, batch, k)) || exists i int :: 0 <= i && i < len(secondaryIndexes) && k == idxKey(primaryKey, secondaryIndexes[i].IndexName, secondaryIndexes[i].SecondaryKey))
-//@ modifies ghset(present, batch)
+//@ modifies ghset(present, batch), ghset(deleted, batch)
 
 // Deleting the index entries of a record removes exactly the entries it declared.
 //
 //@ func deleteSecondaryIndexes
 //@ property C15
 //@ requires batch != nil && existingEntry != nil && forall i int :: 0 <= i && i < len(existingEntry.SecondaryIndexes) ==> existingEntry.SecondaryIndexes[i] != nil
-//@ loop 0 modifies ghset(present, batch)
+//@ loop 0 modifies ghset(present, batch), ghset(deleted, batch)
 //@ loop 0 invariant forall k string :: ghset(present, batch, k) <==> (old(ghset(present, batch, k)) && !exists i int :: 0 <= i && i <= rangeindex && k == idxKey(primaryKey, existingEntry.SecondaryIndexes[i].IndexName, existingEntry.SecondaryIndexes[i].SecondaryKey))
 //@ ensures result == nil ==> forall k string :: ghset(present, batch, k) <==> (old(ghset(present, batch, k)) && !exists i int :: 0 <= i && i < len(existingEntry.SecondaryIndexes) && k == idxKey(primaryKey, existingEntry.SecondaryIndexes[i].IndexName, existingEntry.SecondaryIndexes[i].SecondaryKey))
-//@ modifies ghset(present, batch)
+//@ modifies ghset(present, batch), ghset(deleted, batch)
 
 // Overwriting a record: the index entries of the old version go, those of the new
 // version are present afterwards (an entry declared by both stays present).
@@ -187,13 +187,13 @@ package server
 //@ requires batch != nil && request != nil && forall i int :: 0 <= i && i < len(request.SecondaryIndexes) ==> request.SecondaryIndexes[i] != nil
 //@ requires existingEntry != nil ==> forall i int :: 0 <= i && i < len(existingEntry.SecondaryIndexes) ==> existingEntry.SecondaryIndexes[i] != nil
 //@ ensures err == nil ==> forall k string :: ghset(present, batch, k) <==> ((exists i int :: 0 <= i && i < len(request.SecondaryIndexes) && k == idxKey(request.Key, request.SecondaryIndexes[i].IndexName, request.SecondaryIndexes[i].SecondaryKey)) || (old(ghset(present, batch, k)) && !(existingEntry != nil && exists j int :: 0 <= j && j < len(existingEntry.SecondaryIndexes) && k == idxKey(request.Key, existingEntry.SecondaryIndexes[j].IndexName, existingEntry.SecondaryIndexes[j].SecondaryKey))))
-//@ modifies ghset(present, batch)
+//@ modifies ghset(present, batch), ghset(deleted, batch)
 
 //@ func secondaryIndexesUpdateCallbackS.OnDeleteWithEntry(recv, batch, key, value) (err)
 //@ property C15
 //@ requires batch != nil && value != nil && forall i int :: 0 <= i && i < len(value.SecondaryIndexes) ==> value.SecondaryIndexes[i] != nil
 //@ ensures err == nil ==> forall k string :: ghset(present, batch, k) <==> (old(ghset(present, batch, k)) && !exists i int :: 0 <= i && i < len(value.SecondaryIndexes) && k == idxKey(key, value.SecondaryIndexes[i].IndexName, value.SecondaryIndexes[i].SecondaryKey))
-//@ modifies ghset(present, batch)
+//@ modifies ghset(present, batch), ghset(deleted, batch)
 
 // ---------------------------------------------------------------- follower (C03, C04)
 
@@ -417,8 +417,9 @@ package server
 //@ ensures err == nil ==> status == 0
 //@ ensures err == nil && (existingEntry == nil || existingEntry.SessionId == nil) ==> forall k string :: ghset(present, batch, k) <==> old(ghset(present, batch, k))
 //@ ensures err == nil && existingEntry != nil && existingEntry.SessionId != nil ==> forall k string :: k != shadowKey(*existingEntry.SessionId, key) ==> (ghset(present, batch, k) <==> old(ghset(present, batch, k)))
-//@ ensures err == nil && existingEntry != nil && existingEntry.SessionId != nil && !old(ghset(present, batch, shadowKey(*existingEntry.SessionId, key))) ==> !ghset(present, batch, shadowKey(*existingEntry.SessionId, key))
-//@ modifies ghset(present, batch)
+//@ ensures err == nil && existingEntry != nil && existingEntry.SessionId != nil ==> ghset(deleted, batch, shadowKey(*existingEntry.SessionId, key)) && !ghset(present, batch, shadowKey(*existingEntry.SessionId, key))
+//@ ensures err == nil ==> forall k string :: old(ghset(deleted, batch, k)) ==> ghset(deleted, batch, k)
+//@ modifies ghset(present, batch), ghset(deleted, batch)
 
 // A put naming a session: rejected, writing nothing, when the session's key is not
 // there; otherwise ownership moves to the writer: the shadow of the previous owner goes,
@@ -429,8 +430,9 @@ package server
 //@ requires batch != nil && request != nil && request.SessionId != nil
 //@ ensures !batchSees(batch, sessKey(*request.SessionId)) ==> status == 3 && forall k string :: ghset(present, batch, k) <==> old(ghset(present, batch, k))
 //@ ensures err == nil && status == 0 ==> batchSees(batch, sessKey(*request.SessionId)) && ghset(present, batch, shadowKey(*request.SessionId, request.Key))
+//@ ensures err == nil && status == 0 && existingEntry != nil && existingEntry.SessionId != nil && shadowKey(*existingEntry.SessionId, request.Key) != shadowKey(*request.SessionId, request.Key) ==> ghset(deleted, batch, shadowKey(*existingEntry.SessionId, request.Key)) && !ghset(present, batch, shadowKey(*existingEntry.SessionId, request.Key))
 //@ ensures err == nil && status == 0 ==> forall k string :: k != shadowKey(*request.SessionId, request.Key) && !(existingEntry != nil && existingEntry.SessionId != nil && k == shadowKey(*existingEntry.SessionId, request.Key)) ==> (ghset(present, batch, k) <==> old(ghset(present, batch, k)))
-//@ modifies ghset(present, batch)
+//@ modifies ghset(present, batch), ghset(deleted, batch)
 
 // A plain put takes an ephemeral record over: its shadow goes, nothing else changes; a
 // put within a session is OnPutWithinSession.
@@ -441,11 +443,12 @@ package server
 //@ ensures request.SessionId == nil && err == nil ==> status == 0 && forall k string :: !(existingEntry != nil && existingEntry.SessionId != nil && k == shadowKey(*existingEntry.SessionId, request.Key)) ==> (ghset(present, batch, k) <==> old(ghset(present, batch, k)))
 //@ ensures request.SessionId != nil && !batchSees(batch, sessKey(*request.SessionId)) ==> status == 3 && forall k string :: ghset(present, batch, k) <==> old(ghset(present, batch, k))
 //@ ensures request.SessionId != nil && err == nil && status == 0 ==> ghset(present, batch, shadowKey(*request.SessionId, request.Key))
-//@ modifies ghset(present, batch)
+//@ ensures request.SessionId == nil && err == nil && existingEntry != nil && existingEntry.SessionId != nil ==> ghset(deleted, batch, shadowKey(*existingEntry.SessionId, request.Key))
+//@ modifies ghset(present, batch), ghset(deleted, batch)
 
 //@ func sessionManagerUpdateOperationCallbackS.OnDeleteWithEntry(recv, batch, key, value) (err)
 //@ property C14
 //@ requires batch != nil
 //@ ensures err == nil && (value == nil || value.SessionId == nil) ==> forall k string :: ghset(present, batch, k) <==> old(ghset(present, batch, k))
 //@ ensures err == nil && value != nil && value.SessionId != nil ==> forall k string :: k != shadowKey(*value.SessionId, key) ==> (ghset(present, batch, k) <==> old(ghset(present, batch, k)))
-//@ modifies ghset(present, batch)
+//@ modifies ghset(present, batch), ghset(deleted, batch)
